@@ -200,8 +200,9 @@ def classify(body, pos, end_call, fn_tail_has_flag_test):
 def scan_function(H, repo, f, fn, callees):
     body = H.func_body(H.raw(repo, f), fn)
     # drop HFILE_SEEKINFO-style debugging blocks
-    body = re.sub(r"#ifdef\s+HFILE_SEEKINFO.*?#endif[^\n]*", " ", body, flags=re.S)
-    body = re.sub(r"#ifdef\s+STATISTICS.*?#endif[^\n]*", " ", body, flags=re.S)
+    # drop debugging variants that are never compiled in (-D not set anywhere in the build)
+    for mac in ("HFILE_SEEKINFO", "STATISTICS", "DISKBLOCK_DEBUG"):
+        body = re.sub(r"#ifdef\s+%s\b.*?#(?:else|endif)[^\n]*" % mac, " ", body, flags=re.S)
     out = []
     pat = re.compile(r"\b(%s)\s*\(" % "|".join(re.escape(c) for c in sorted(callees, key=len, reverse=True)))
     for m in pat.finditer(body):
